@@ -430,77 +430,67 @@ Definition parse_and_verify (A : AirP) (pol : Policy) (bs : bytes) (orc : Oracle
 (* =================================================================================== allocation accounting *)
 (* Capacity requested from the allocator while Proof::from_bytes runs, in bytes, following read_Proof step by step.
    read_vec(n) copies n bytes AFTER check_eor (so only when they are there); read_many(n) reserves at most
-   MAX_PREALLOC_BYTES up front and then grows with the elements actually read (amortised doubling: at most 4 x the bytes
-   held at the end, see notes/C06.design.md); an error message is a small constant. *)
+   MAX_PREALLOC_BYTES up front and then grows with the elements actually read (amortised doubling: at most GROW x the
+   bytes held are requested in total, see notes/C06.design.md); the error value holds one message (a small constant). *)
 Definition MAX_PREALLOC : Z := 65536.
 Definition ERR_MSG : Z := 512.
 Definition GROW : Z := 4.
-Definition prealloc (n elem_size : Z) : Z := Z.min n (MAX_PREALLOC / Z.max elem_size 1) * elem_size.
-
+Definition prealloc (n elem_size : Z) : Z := Z.min (Z.max n 0) (MAX_PREALLOC / Z.max elem_size 1) * elem_size.
 (* size_of::<Queries>() = size_of::<FriProofLayer>() = 48 (two Vec<u8>) *)
 Definition SZ_2VEC : Z := 48.
 
-(* allocation of a reader built from blobs: every byte copied out of the input is counted once *)
-Definition alloc_bound (input_len : Z) : Z :=
-  (* blobs are disjoint parts of the input; the two read_many calls (FRI layers: <= 255 entries of 48 bytes, each
-     backed by >= 9 input bytes; gkr bytes: one byte each); trace_queries: with_capacity(<= 2) *)
-  input_len                                                  (* read_vec copies *)
-  + prealloc 255 SZ_2VEC + GROW * SZ_2VEC * (input_len / 9)  (* Vec<FriProofLayer> *)
-  + MAX_PREALLOC + GROW * input_len                          (* gkr: Vec<u8> *)
-  + 2 * SZ_2VEC                                              (* Vec<Queries>::with_capacity(num_trace_segments) *)
-  + ERR_MSG.
-
-(* the same, computed along the actual run: (bytes requested, result) *)
+(* a reader with accounting: (bytes requested, result) *)
 Definition A (T : Type) : Type := bytes -> (Z * Result (T * bytes)).
 Definition aret {T} (a : T) : A T := fun bs => (0, Ok (a, bs)).
 Definition abind {T U} (r : A T) (f : T -> A U) : A U :=
   fun bs => match r bs with
             | (n, Ok (a, bs')) => let '(m, x) := f a bs' in (n + m, x)
-            | (n, Err e) => (n + ERR_MSG, Err e)
+            | (n, Err e) => (n, Err e)
             | (n, Panic) => (n, Panic)
             end.
+Definition afail {T} (e : derr) : A T := fun _ => (0, Err e).
 Definition afree {T} (r : Rd T) : A T := fun bs => (0, r bs).               (* no allocation: fixed-size reads *)
-Definition ablob (k : nat) : A bytes :=                                      (* read_uN + read_vec(n) *)
-  fun bs => match read_blob k bs with Ok (b, r) => (len b, Ok (b, r)) | x => (0, x) end.
+Definition avec (n : Z) : A bytes :=                                         (* read_vec(n): check_eor, then copy *)
+  fun bs => match read_vec n bs with Ok (b, r) => (len b, Ok (b, r)) | x => (0, x) end.
+Definition ablob (k : nat) : A bytes := abind (afree (read_uint k)) avec.    (* read_uN + read_vec(n) *)
 Notation "x <~ r ;; k" := (abind r (fun x => k)) (at level 61, r at next level, right associativity).
 
 Definition a_Queries : A Queries := v <~ ablob 4 ;; p <~ ablob 4 ;; aret (mkQ p v).
 Definition a_OodFrame : A OodFrame := t <~ ablob 2 ;; l <~ ablob 2 ;; e <~ ablob 2 ;; aret (mkOod t l e).
 Definition a_FriProofLayer : A FriProofLayer :=
   n <~ afree read_u32 ;;
-  if n =? 0 then (fun _ => (ERR_MSG, Err Invalid)) else
-  v <~ (fun bs => match read_vec n bs with Ok (b, r) => (len b, Ok (b, r)) | x => (0, x) end) ;;
+  if n =? 0 then afail Invalid else
+  v <~ avec n ;;
   p <~ ablob 4 ;;
   aret (mkFL v p).
 
-(* read_many with accounting: n iterations, stopping at the first failure (structural on the elements read: fuel = input) *)
-Fixpoint a_many_loop {T} (fuel : nat) (r : A T) (n : Z) (acc : list T) : A (list T) :=
+(* read_many with accounting: n iterations, stopping at the first failure; [g]: growth charged per element pushed.
+   Fuel = |input| + 1 suffices when every element consumes at least one byte. *)
+Fixpoint a_many_loop {T} (fuel : nat) (r : A T) (g : Z) (n : Z) (acc : list T) : A (list T) :=
   fun bs => if n <=? 0 then (0, Ok (rev acc, bs)) else
             match fuel with
-            | O => (0, Err Eof)      (* unreachable when every element consumes >= 1 byte and fuel = |input| + 1 *)
+            | O => (0, Err Eof)
             | S f => match r bs with
-                     | (m, Ok (a, bs')) => let '(m', x) := a_many_loop f r (n - 1) (a :: acc) bs' in (m + m', x)
-                     | (m, Err e) => (m + ERR_MSG, Err e)
+                     | (m, Ok (a, bs')) => let '(m', x) := a_many_loop f r g (n - 1) (a :: acc) bs' in (m + g + m', x)
+                     | (m, Err e) => (m, Err e)
                      | (m, Panic) => (m, Panic)
                      end
             end.
 Definition a_many {T} (r : A T) (elem_size : Z) (n : Z) : A (list T) :=
-  fun bs => match a_many_loop (S (length bs)) r n [] bs with
-            | (m, Ok (l, rest)) => (prealloc n elem_size + m + GROW * elem_size * llen l, Ok (l, rest))
-            | (m, x) => (prealloc n elem_size + m + GROW * elem_size * Z.min n (len bs), x)
-            end.
+  fun bs => let '(m, x) := a_many_loop (S (length bs)) r (GROW * elem_size) n [] bs in (prealloc n elem_size + m, x).
 
 Definition a_FriProof : A FriProof :=
   n <~ afree read_u8 ;;
   layers <~ a_many a_FriProofLayer SZ_2VEC n ;;
   r <~ ablob 2 ;;
   np <~ afree read_u8 ;;
-  if np >=? 64 then (fun _ => (ERR_MSG, Err Invalid)) else aret (mkFri layers r np).
+  if np >=? 64 then afail Invalid else aret (mkFri layers r np).
 
+(* the context holds the metadata and the modulus bytes: at most what the reader consumed *)
 Definition a_Context : A Context :=
   fun bs => match read_Context bs with
-            | Ok (c, r) => (len (ti_meta (ctx_trace_info c)) + len (ctx_modulus c), Ok (c, r))
-            | x => (65535 + 255 + ERR_MSG, x)
+            | Ok (c, r) => (len bs - len r, Ok (c, r))
+            | x => (len bs, x)
             end.
 
 Definition a_Proof : A Proof :=
@@ -516,4 +506,14 @@ Definition a_Proof : A Proof :=
           if tag then (n <~ afree read_usize ;; v <~ a_many (afree read_u8) 1 n ;; aret (Some v)) else aret None) ;;
   aret (mkProof c nuq com tq cq ood fri nonce gkr).
 
-Definition parse_alloc (bs : bytes) : Z := fst (a_Proof bs).
+(* total requested by Proof::from_bytes(bs): the run, plus the message of the error value when it fails *)
+Definition parse_alloc (bs : bytes) : Z :=
+  let '(n, x) := a_Proof bs in match x with Err _ => n + ERR_MSG | _ => n end.
+Definition parse_alloc_result (bs : bytes) : Result Proof :=
+  match snd (a_Proof bs) with Ok (p, _) => Ok p | Err e => Err e | Panic => Panic end.
+
+(* c * |bytes| + k.  c = 25: a FRI layer entry of 48 bytes is backed by at least 8 input bytes (its two length
+   prefixes), and GROW * 48 = 24 * 8, plus the bytes copied; k: the two bounded pre-allocations, the trace-query
+   vector, one error message *)
+Definition alloc_bound (input_len : Z) : Z :=
+  25 * input_len + (prealloc 255 SZ_2VEC + MAX_PREALLOC + 2 * SZ_2VEC + ERR_MSG).
